@@ -4,7 +4,7 @@
    The theorems of this file hold over EVERY commutative ring (in particular Qc, where the model runs, and R),
    for every size and every number of likelihoods; the part that needs an inverse (offset = posterior mean,
    G G^T = posterior covariance, independence of the current state) is in Props/C06_mc.v (mathcomp). *)
-From CV Require Import Base.Tac Base.LinAlg Base.Cmp Base.QcLin Model.C06_RTO Model.C06_FD Proofs.C06_FD
+From CV Require Import Base.Tac Base.LinAlg Base.Cmp Base.QcLin Model.C06_RTO Model.C06_FD Model.C06_GMRFop Proofs.C06_FD Proofs.C06_GMRFop
                        Proofs.C06_Lin Proofs.C06_Forms Proofs.C06_UGLA Proofs.C06_History.
 From Coq Require Import Ring QArith Qcanon.
 
@@ -257,6 +257,15 @@ Theorem C06_ugla_adjoint_cells :
   qdot (q_ugla_M_fwd (raw_cfg w) sw x) y = qdot x (q_ugla_M_adj (raw_cfg w) sw y).
 Proof. exact ugla_adjoint_cells. Qed.
 Print Assumptions C06_ugla_adjoint_cells.
+
+(* The GMRF prior's structure matrix, built by the model for orders 0-2 in 1-d and 2-d (compared EXACTLY with the object's
+   own on every run): P = D^T D acts as v |-> D^T (D v), so (delta P, mean) is a Gaussian factor in the sense of
+   C06_normal_equations_model whatever Cholesky factor the implementation computes for it. *)
+Theorem C06_gmrf_structure : forall (order : nat) (two_d : bool) (b : bc_kind) (N : nat),
+  wf_mat (if two_d then N * N else N)%nat (gmrf_diff_op order two_d b N) /\
+  sqrt_law Qc 0%Qc Qcplus Qcmult (if two_d then N * N else N)%nat (gmrf_diff_op order two_d b N) (gmrf_structure order two_d b N).
+Proof. intros. split; [apply gmrf_diff_op_wf | apply gmrf_structure_sqrt]. Qed.
+Print Assumptions C06_gmrf_structure.
 
 (* Tie between the case files and the theorems: the boolean law check the harness evaluates on every OBSERVED
    square-root precision implies (at tolerance 0) the hypothesis `sqrt_law` of C06_normal_equations_model /
